@@ -20,7 +20,9 @@ RULE = (
     " (ENTRY/ANYWHERE); modules include leading uncovered bytes,"
     " uninitialised tails, syscall terminators, symbolic"
     " memory-indirect transfers; patches include temporary labels,"
-    " inline data, data for other sections, '.balign 1'."
+    " inline data, data for other sections, '.balign 1',"
+    " operand addends, ARM64 literal loads; 12% of the modules hold one"
+    " or two zero-sized code blocks (left by an earlier rewrite)."
 )
 ASSUMPTIONS = [
     "vocabulary byte table (tools/selftest_vocab.py) matches LLVM-MC and capstone",
